@@ -237,5 +237,7 @@ func (fv *FV) execRangeMap(st *State, x *ast.RangeStmt, label string, ord int, l
 		fv.ghostAt(end, fmt.Sprintf("loop %d end", ord), x.Pos())
 		fv.checkInvariants(end, ls, ord, "preserve", x.Pos(), scopePos)
 	}
-	return fv.merge(append([]*State{exit}, lc.breaks...)...)
+	after := fv.merge(append([]*State{exit}, lc.breaks...)...)
+	fv.ghostAt(after, fmt.Sprintf("loop %d exit", ord), x.Pos())
+	return after
 }
